@@ -105,6 +105,7 @@ Outcome paths(Json const& plan)
     static char const* const names[] = {"gray8", "rgb8", "rgba8"};
     using P3 = gil::gray8_pixel_t; using P4 = gil::rgb8_pixel_t; using P5 = gil::rgba8_pixel_t;
     PathsCfg cfg;
+    cfg.seeks = true;
     // targa/detail/scanline_read.hpp: "scanline reader cannot read this targa image type." (RLE) and
     // "scanline reader cannot read targa files which have screen origin bit set."
     cfg.scan_refused = v.find("rle") != std::string::npos || v.find("top") != std::string::npos;
